@@ -29,6 +29,7 @@ mutual
     | .date _ => true
     | .tdelta _ => true
     | .cdelta _ => true
+    | .fdt _ => true
     | .nat => true
     | .list xs => EVal.sizedList xs
     | .tuple xs => EVal.sizedList xs
@@ -60,6 +61,7 @@ mutual
     | .date _, _ => rfl
     | .tdelta _, _ => rfl
     | .cdelta _, _ => rfl
+    | .fdt _, _ => rfl
     | .nat, _ => rfl
     | .list xs, h => by
         simp only [EVal.norm, EVal.sized] at h ⊢; exact normList_sized xs h
@@ -232,6 +234,7 @@ mutual
     | .date _, b, _, _ => by cases b <;> simp [eqNR, eqN]
     | .tdelta _, b, _, _ => by cases b <;> simp [eqNR, eqN]
     | .cdelta _, b, _, _ => by cases b <;> simp [eqNR, eqN]
+    | .fdt _, b, _, _ => by cases b <;> simp [eqNR, eqN]
     | .nat, b, _, _ => by cases b <;> simp [eqNR, eqN]
     | .list xs, b, ha, hb => by
         cases b <;> try (simp [eqNR, eqN]; done)
@@ -373,6 +376,7 @@ mutual
     | .date _, b => by cases b <;> (simp only [eqNR]; exact ⟨_, rfl⟩)
     | .tdelta _, b => by cases b <;> (simp only [eqNR]; exact ⟨_, rfl⟩)
     | .cdelta _, b => by cases b <;> (simp only [eqNR]; exact ⟨_, rfl⟩)
+    | .fdt _, b => by cases b <;> (simp only [eqNR]; exact ⟨_, rfl⟩)
     | .nat, b => by cases b <;> (simp only [eqNR]; exact ⟨_, rfl⟩)
     | .list xs, b => by
         cases b <;> try (simp only [eqNR]; exact ⟨_, rfl⟩; done)
